@@ -1029,7 +1029,7 @@ func runC10(c *fw.Ctx) {
 	c.Bound("hash_sizes", []int{20, 32})
 	c.Bound("max_set_size", maxSet)
 	c.Bound("implementations", []string{"memory", "lazy", "lazy+pool1", "mmap"})
-	c.SetRule("states = entry sets (subsets of a 12-hash colliding universe x 2 offset/crc assignments x sha1/sha256, encoded by go-git's Writer+Encode; plus packs indexed by git with a forced 64-bit offset table); for every state and implementation every query sequence of the stated length over the whole alphabet (Contains/MayContain/FindOffset/FindCRC32 per universe hash, FindHash per present+absent offset, EntriesWithPrefix per 0-3 byte prefix and near-full prefixes, Entries, EntriesByOffset, Count) is run on a fresh reader and each step compared with a plain map built from `git show-index`; a class is non-trivial when it is a distinct (state shape: hash size, entries, 64-bit offsets, buckets, shared prefixes) x implementation; large indexes (8191..9000 entries quick, up to 20000 thorough, six placements of 64-bit offsets around the 8192-entry scan-chunk boundary) looked up row by row through MemoryIndex/LazyIndex; malformed files: every single-byte substitution (4 values), truncation and three extensions of idx and rev files of 3 states, classes = (impl, file, region, outcome)")
+	c.SetRule("states = entry sets (subsets of a 12-hash colliding universe x 2 offset/crc assignments x sha1/sha256, encoded by go-git's Writer+Encode; plus packs indexed by git with a forced 64-bit offset table); for every state and implementation every query sequence of the stated length over the whole alphabet (Contains/MayContain/FindOffset/FindCRC32 per universe hash, FindHash per present+absent offset, EntriesWithPrefix per 0-3 byte prefix and near-full prefixes, Entries, EntriesByOffset, Count) is run on a fresh reader and each step compared with a plain map built from `git show-index`; a class is non-trivial when it is a distinct (state shape: hash size, entries, 64-bit offsets, buckets, shared prefixes) x implementation; large indexes (8191..9000 entries quick, up to 20000 thorough, six placements of 64-bit offsets around the 8192-entry scan-chunk boundary) (and one sha256 index) driven through every entry point - lookups by id/crc/offset, absent neighbours, prefixes of eight rows, whole listings in both orders - on MemoryIndex/LazyIndex/mmap scanner; iterators opened together, advanced alternately with lookups in between and abandoned half-way on every small state; malformed files: every single-byte substitution (4 values), truncation and three extensions of idx and rev files of 3 states, classes = (impl, file, region, outcome)")
 	c.Assume("git 2.39.5 show-index / verify-pack / load_idx are the reference for the idx v2 and rev v1 formats")
 	c.Assume("the mmap PackScanner only offers FindOffset and FindHash; CRC, prefix and iteration queries are compared on MemoryIndex and LazyIndex only")
 	c.Assume("a file is 'malformed' when git's own loader (load_idx / load_revindex_from_disk) refuses it, or when an answer could only come from bytes that are not a row of the table; a structurally loadable file with altered content may be answered from consistently (neither git nor the lazy readers verify the trailing checksum on open)")
@@ -1126,6 +1126,9 @@ func runC10(c *fw.Ctx) {
 	c.ParDo(len(states), 0, func(i int) { c10Roundtrip(c, states[i]) })
 
 	c10Phase(c, "roundtrip")
+	// ---- overlapping iterators on every state
+	c10Interleaved(c, states)
+	c10Phase(c, "interleaved")
 	// ---- exploration: a list of passes (set-size bound, alphabet, length)
 	type pass struct {
 		maxSet int
